@@ -169,15 +169,15 @@ theorem decodeView_append_of_isOk (buf extra : Bytes) (d : Nat) (h : (decodeView
 
 theorem view_step {p : String} {ty : ViewTy} {v : Validity} {views : List Nat} {buf : Bytes}
     (hwf : WFB (.bytesView p ty v views buf)) (b : Bool) (d : Nat) (extra : Bytes)
-    (hd : (decodeView [buf ++ extra] d).isOk = true) :
+    (hd : (decodeView [buf ++ extra] d).isOk = true) (hlen : (buf ++ extra).length < 2 ^ 32) :
     WFB (.bytesView p ty (v.map (· ++ [b])) (views ++ [d]) (buf ++ extra)) ∧
     dec (.bytesView p ty (v.map (· ++ [b])) (views ++ [d]) (buf ++ extra)) =
       dec (.bytesView p ty v views buf) ++ [rowOf v b (bytesVal (ty == .utf8View) (viewBytes (buf ++ extra) d))] := by
   simp only [WFB] at hwf
-  obtain ⟨hv, hviews⟩ := hwf
+  obtain ⟨hv, hviews, _⟩ := hwf
   refine ⟨?_, ?_⟩
-  · simp only [WFB, List.length_append, List.length_singleton]
-    refine ⟨hv.snoc b, ?_⟩
+  · simp only [WFB, List.length_singleton]
+    refine ⟨by rw [List.length_append]; exact hv.snoc b, ?_, hlen⟩
     intro d' hd'
     rcases List.mem_append.1 hd' with h | h
     · rw [decodeView_append_of_isOk buf extra d' (hviews d' h)]; exact hviews d' h
@@ -192,16 +192,56 @@ theorem view_step {p : String} {ty : ViewTy} {v : Validity} {views : List Nat} {
     rw [this]
     exact maskNull_snoc (by simpa using hv) b _
 
-theorem viewPushValue_spec (views : List Nat) (buf value : Bytes) :
-    ∃ d extra, viewPushValue views buf value = (views ++ [d], buf ++ extra) ∧
-      (decodeView [buf ++ extra] d).isOk = true := by
-  unfold viewPushValue
-  split
-  · rename_i h
-    exact ⟨packInline value, [], by simp, decodeView_inline_isOk _ _ h⟩
-  · exact ⟨packExtern value 0 buf.length, value, rfl, decodeView_extern_isOk _ _⟩
+theorem view_buf_lt {p ty v views buf} (hwf : WFB (.bytesView p ty v views buf)) : buf.length < 2 ^ 32 := by
+  simp only [WFB] at hwf; exact hwf.2.2
 
-theorem viewSeq_eq : viewSeq = viewPushValue := rfl
+/-- a successful `push_scalar_value`: one more descriptor designating bytes of the (possibly extended) buffer; the
+buffer stays below 4 GiB (an out-of-line value is refused when its length or its offset exceeds `i32::MAX`) -/
+theorem viewPushValue_ok {views : List Nat} {buf value : Bytes} {r : List Nat × Bytes}
+    (h : viewPushValue views buf value = .ok r) :
+    ∃ d extra, r = (views ++ [d], buf ++ extra) ∧ (decodeView [buf ++ extra] d).isOk = true ∧
+      (buf.length < 2 ^ 32 → (buf ++ extra).length < 2 ^ 32) ∧
+      ((d = packInline value ∧ extra = [] ∧ value.length ≤ 12) ∨
+       (d = packExtern value 0 buf.length ∧ extra = value ∧ 12 < value.length ∧ (buf ++ value).length < 2 ^ 32)) := by
+  unfold viewPushValue at h
+  split at h
+  · rename_i hle
+    cases h
+    exact ⟨packInline value, [], by simp, decodeView_inline_isOk _ _ hle, by simp, .inl ⟨rfl, rfl, hle⟩⟩
+  · rename_i hgt
+    split at h
+    · simp [fail] at h
+    · rename_i hmax
+      cases h
+      have hb : (buf ++ value).length < 2 ^ 32 := by
+        simp only [I32_MAX] at hmax; rw [List.length_append]; omega
+      exact ⟨packExtern value 0 buf.length, value, rfl, decodeView_extern_isOk _ _, fun _ => hb,
+        .inr ⟨rfl, rfl, by omega, hb⟩⟩
+
+/-- the same for the sequence path (`start_seq` … `end_seq`) -/
+theorem viewSeq_ok {views : List Nat} {buf value : Bytes} {r : List Nat × Bytes}
+    (h : viewSeq views buf value = .ok r) :
+    ∃ d extra, r = (views ++ [d], buf ++ extra) ∧ (decodeView [buf ++ extra] d).isOk = true ∧
+      (buf.length < 2 ^ 32 → (buf ++ extra).length < 2 ^ 32) ∧
+      ((d = packInline value ∧ extra = [] ∧ value.length ≤ 12) ∨
+       (d = packExtern value 0 buf.length ∧ extra = value ∧ 12 < value.length ∧ (buf ++ value).length < 2 ^ 32)) := by
+  unfold viewSeq at h
+  split at h
+  · simp [fail] at h
+  · rename_i hlen
+    split at h
+    · rename_i hle
+      cases h
+      exact ⟨packInline value, [], by simp, decodeView_inline_isOk _ _ hle, by simp, .inl ⟨rfl, rfl, hle⟩⟩
+    · rename_i hgt
+      split at h
+      · simp [fail] at h
+      · rename_i hmax
+        cases h
+        have hb : (buf ++ value).length < 2 ^ 32 := by
+          simp only [I32_MAX] at hmax hlen; rw [List.length_append]; omega
+        exact ⟨packExtern value 0 buf.length, value, rfl, decodeView_extern_isOk _ _, fun _ => hb,
+          .inr ⟨rfl, rfl, by omega, hb⟩⟩
 
 /-! ### fixed-size binary -/
 
